@@ -48,6 +48,7 @@ package lastgersync
 //@   ensures result != nil ==> gerHas == old(gerHas) && gerRootAt == old(gerRootAt) && gerIdxAt == old(gerIdxAt)
 
 //@ func (*processor) handleGERInsertion (arg0, tx, gerInfo)
+//@   threads tx
 //@   props C16 C04
 //@   nocalls
 //@   allowcalls Insert Errorf
@@ -65,6 +66,7 @@ package lastgersync
 //@   ensures result1 != nil ==> gerHas == old(gerHas)
 
 //@ func (p *processor) handleGEREvent (p, tx, event)
+//@   threads tx
 //@   props C16 C04
 //@   sqltext "DELETE FROM imported_global_exit_root WHERE global_exit_root = $1;"
 //@   requires tx != nil && event != nil
@@ -81,6 +83,7 @@ package lastgersync
 
 // ---- one L2 block is applied atomically (C07, C16): committed only if every statement succeeded, rolled back otherwise
 //@ func (p *processor) ProcessBlock (p, ctx, block)
+//@   threads tx
 //@   props C07 C16
 //@   sqltext "INSERT INTO block (num, hash) VALUES ($1, $2)"
 //@   requires p != nil && p.database != nil && p.log != nil
